@@ -21,6 +21,8 @@ LEVEL = "other"
 
 def versionchk(ctx, rep, led, tab):
     F = ctx.F
+    from .. import evalcfg
+    evalcfg.RESOLVER["F"] = F       # version checks hoisted into a Status helper are evaluated through the call
     fns = F.need(tab["version_check_fn"])
     payload = set(tab["payload_calls"])
     n = 0
@@ -50,6 +52,15 @@ def versionchk(ctx, rep, led, tab):
                         if b.id in unknown_ret:
                             hit["unk"] = True
                             return False
+                        for x in b.ev:      # `return _local_status;` of a helper that answered UNKNOWN_VERSION
+                            if x["k"] == "ret":
+                                t = x.get("e")
+                                while isinstance(t, dict) and t.get("k") in ("copy", "icast"):
+                                    t = t.get("e")
+                                if isinstance(t, dict) and t.get("k") == "var" and \
+                                        env.get(("st", t.get("d"))) == "UNKNOWN_VERSION":
+                                    hit["unk"] = True
+                                    return False
                         return True
                     env0 = {("f", "version_major"): M, ("f", "version_minor"): m,
                             ("f", "encoder_type"): g, ("f", "flags"): 0}
